@@ -434,10 +434,19 @@ func (v *storeView) GetTransaction(ctx context.Context, txID *big.Int) (*ledger.
 // InsertLogs is one SQL transaction: the whole batch or nothing.
 func (v *storeView) InsertLogs(ctx context.Context, logs ...*ledger.ChainedLog) error {
 	s := v.sim
-	s.sched.Yield(ctx, "store.InsertLogs")
 	if v.dead() {
-		return errDeadGen
+		return nil
 	}
+	// Every write is a task of its own: with more than one batch worker several writes can be
+	// in flight and the scheduler, not the runtime, decides which one reaches the store first.
+	v.li.writeCalls++
+	wt := s.sched.adhocTask(v.gen, fmt.Sprintf("g%d.%s.write%d", v.gen.Idx, v.m.Name, v.li.writeCalls))
+	s.sched.yieldTask(wt, "store.InsertLogs", true)
+	if v.dead() {
+		// a dead process persists nothing; reporting success lets the runner loop drain (DESIGN 2.2)
+		return nil
+	}
+	s.checkHandOff(v.li, logs)
 	mode := v.fault("InsertLogs")
 	if mode == 1 {
 		s.count("fault.write.fail")
@@ -518,9 +527,9 @@ func (v *storeView) InsertLogs(ctx context.Context, logs ...*ledger.ChainedLog) 
 		s.count("fault.write.ambiguous")
 		s.sched.Logf("  store %s InsertLogs -> committed, then injected error", v.m.Name)
 		v.li.writeFailed = true
-		s.sched.Yield(ctx, "store.InsertLogs.post")
+		s.sched.yieldTask(wt, "store.InsertLogs.post", true)
 		return errInjected
 	}
-	s.sched.Yield(ctx, "store.InsertLogs.post")
+	s.sched.yieldTask(wt, "store.InsertLogs.post", true)
 	return nil
 }
